@@ -116,6 +116,12 @@ func (u UserSafe) IsSafe(t string) bool {
 }
 func (u UserSafe) SafeFor() []string { return u.Types }
 
+// NilSafePointer is a typed nil pointer to an application-defined safe value whose methods have value receivers:
+// the pointer type implements SafeValue, and calling any of its methods panics. Coercions must see the nil
+// pointer first. (It is no member of Scalars: handing it to NewSafeValue or to the escape filter calls the
+// methods of the application's type, which is outside every claim.)
+func NilSafePointer() Named { return N("nil *UserSafe (value receivers)", (*UserSafe)(nil)) }
+
 // Named is a value with a label for reports.
 type Named struct {
 	Label string
@@ -154,6 +160,7 @@ func Scalars() []Named {
 		N("*big.Int", big.NewInt(42)), N("big.Float", *big.NewFloat(1.5)), N("url.URL", url.URL{Scheme: "http", Host: "h"}), N("net.IP", net.IP{127, 0, 0, 1}), N("os.FileMode", os.FileMode(0o644)),
 		N("typed nil in iface slice", []interface{}{(*int)(nil)}), N("[2]string", [2]string{"a", "b"}), N("struct{}", struct{}{}), N("*struct{}", &struct{}{}), N("**int", func() **int { i := 3; p := &i; return &p }()),
 		N("embeds Stringer/Number/Boolean holding typed nil pointers", EmbedsIfaces{Stringer: (*ValStringer)(nil), Number: (*ValNumber)(nil), Boolean: (*ValBoolean)(nil)}), N("two nil embedded pointers, the second has String", TwoEmbedded{}),
+		N("*UserSafe", &UserSafe{Inner: "<us>", Types: []string{"html"}}), N("nil *ValStringer", (*ValStringer)(nil)), N("nil *ValNumber", (*ValNumber)(nil)), N("nil *ValBoolean", (*ValBoolean)(nil)),
 		N("embeds nil Stringer/Number/Boolean", EmbedsIfaces{}), N("*embeds nil Stringer/Number/Boolean", &EmbedsIfaces{}), N("embeds Stringer, nil Number/Boolean", EmbedsIfaces{Stringer: ValStringer{"es"}}),
 		N("embeds Number, nil Stringer", EmbedsIfaces{Number: ValNumber{2}}), N("embeds nil *Stringer-impl", EmbedsStringerPtr{Tag: "t"}), N("embeds *Stringer-impl", EmbedsStringerPtr{&ValStringer{"ep"}, "t"}),
 		// letters whose other case has another length in UTF-8, alone and followed by a little
